@@ -138,6 +138,11 @@ func VH_C17_Func(p []int) {
 // configuration; Free on a read-only instance reports an error.
 func VH_C17_ResetFree(p []int) {
 	pre := vhArbitraryStack(p[0], 1, true, vhOptMask, 2, 2)
+	if nondetChoice(2) == 1 {
+		// whether a validity policy currently accepts the content is no
+		// business of Reset and Free
+		pre.cfg.vpf = func(...any) error { return errorf("content not acceptable") }
+	}
 	snap := vhSnapCfg(pre.cfg)
 	ro := pre.cfg.opt&ronly != 0
 	pre.s.Reset()
